@@ -173,8 +173,10 @@ func WithWordInterceptor(rule string) Option { return WithInterceptor(syntax.Mat
 //
 // [跨域请求]: https://developer.mozilla.org/zh-CN/docs/Web/HTTP/cors
 func WithCORS(origin []string, allowHeaders []string, exposedHeaders []string, maxAge int, allowCredentials bool) Option {
+	// 在此处而不是在返回的函数中复制：Group 会保存 Option 并在每次 [Group.New] 时重新应用。
+	origin, allowHeaders, exposedHeaders = slices.Clone(origin), slices.Clone(allowHeaders), slices.Clone(exposedHeaders)
 	return func(o *options) {
-		o.cors = &cors{ // 保存副本，之后调用方对切片的修改不会影响到路由。
+		o.cors = &cors{ // 每个路由拥有各自的副本
 			Origins:          slices.Clone(origin),
 			AllowHeaders:     slices.Clone(allowHeaders),
 			ExposedHeaders:   slices.Clone(exposedHeaders),
@@ -258,6 +260,11 @@ func (c *cors) handle(node types.Node, wh http.Header, r *http.Request) {
 		return
 	}
 
+	// Access-Control-Request-Method 只能有一个值，多个值时无法确定预检的是哪个请求方法，不作任何跨域的处理。
+	if r.Method == http.MethodOptions && len(r.Header.Values(header.AccessControlRequestMethod)) > 1 {
+		return
+	}
+
 	// Origin 是可以为空的，所以采用 Access-Control-Request-Method 判断是否为预检。
 	reqMethod := r.Header.Get(header.AccessControlRequestMethod)
 	preflight := r.Method == http.MethodOptions &&
@@ -266,9 +273,6 @@ func (c *cors) handle(node types.Node, wh http.Header, r *http.Request) {
 
 	if preflight {
 		// Access-Control-Allow-Methods
-		if len(r.Header.Values(header.AccessControlRequestMethod)) > 1 { // 只能有一个值，多个值时无法确定预检的是哪个请求方法。
-			return
-		}
 		// 只读取一次节点的请求方法，保证判断与输出的内容是同一时刻的值。
 		methods := node.Methods()
 		if slices.Index(methods, reqMethod) < 0 {
